@@ -204,9 +204,17 @@ def evsFor (trig : Bool) (wt : Watcher) (dict : List Ev) : List TEv :=
 /-- `any(watcher is w for w in l)` -/
 def hasId (l : List Watcher) (uid : Nat) : Bool := l.any (fun x => x.uid = uid)
 
+/-- Values from `opaqueBase` on stand for objects without a usable equality - the callables a Dynamic
+(numeric) parameter may hold instead of a number.  `Comparator.is_equal` knows no rule for them and
+answers False, also for one and the same object: such a value always counts as changed. -/
+def opaqueBase : Int := 100
+
+/-- `Comparator.is_equal(old, new)` on the modelled values -/
+def same (a b : Int) : Bool := a == b && decide (a < opaqueBase)
+
 /-- does the changes-only filter let the event through (`_call_watcher`) -/
 def passes (trig : Bool) (wt : Watcher) (e : Ev) : Bool :=
-  trig || !wt.onlychanged || e.old != e.new
+  trig || !wt.onlychanged || !same e.old e.new
 
 /-- `dict(kvs)`: later values win, first-occurrence order -/
 def dedupKeys : List (Nat × Int) → List (Nat × Int)
